@@ -88,3 +88,34 @@ pub mod recursion {
         SP_LOW.with(|x| x.set(usize::MAX));
     }
 }
+
+/// Observation of the instructions the VM dispatches (in execution order, through
+/// every nested evaluation of the current thread).
+pub mod instructions {
+    use std::cell::RefCell;
+
+    use crate::compiler::instructions::Instruction;
+
+    type Hook = Box<dyn FnMut(&Instruction<'_>)>;
+
+    thread_local! {
+        static HOOK: RefCell<Option<Hook>> = const { RefCell::new(None) };
+    }
+
+    /// Installs (or removes) the per-thread callback that is invoked for every
+    /// instruction right before the VM accounts fuel for it and dispatches it.
+    pub fn set_hook(hook: Option<Hook>) -> Option<Hook> {
+        HOOK.with(|h| std::mem::replace(&mut *h.borrow_mut(), hook))
+    }
+
+    #[inline]
+    pub(crate) fn on_instruction(instr: &Instruction<'_>) {
+        HOOK.with(|h| {
+            if let Ok(mut h) = h.try_borrow_mut() {
+                if let Some(f) = h.as_mut() {
+                    f(instr);
+                }
+            }
+        });
+    }
+}
